@@ -21,7 +21,8 @@ func init() {
 	})
 }
 
-// cmpImplSpec: the model answers "<impl> | <spec>"; Go must equal both.
+// cmpImplSpec: the model answers "<impl> | <spec>" (and, for sel.select, "| <other allowed reading>"); Go must equal impl = spec
+// or the other allowed reading.
 func cmpImplSpec(line, g, m string) string {
 	parts := strings.Split(m, " | ")
 	if len(parts) == 1 {
@@ -34,6 +35,12 @@ func cmpImplSpec(line, g, m string) string {
 		return "model≠spec (theorem/driver mismatch)"
 	}
 	if g != parts[0] {
+		// a third field, when present, is the model's answer under the other reading the property allows at a point it leaves
+		// open (C12: an optional slice applied to a value that cannot be sliced — error or "no value"; Model/Selector.lean,
+		// `lenient`; `C12_latitude_is_optional_slice_only` says the two readings differ nowhere else)
+		if len(parts) >= 3 && g == parts[2] {
+			return ""
+		}
 		return "go≠model=spec"
 	}
 	return ""
